@@ -550,10 +550,96 @@ func (a Actor) Equals(with Item) bool {
 }
 
 func (e Endpoints) GobEncode() ([]byte, error) {
-	return nil, nil
+	var (
+		mm      = make(map[string][]byte)
+		err     error
+		hasData bool
+	)
+	if e.UploadMedia != nil {
+		if mm["uploadMedia"], err = gobEncodeItem(e.UploadMedia); err != nil {
+			return nil, err
+		}
+		hasData = true
+	}
+	if e.OauthAuthorizationEndpoint != nil {
+		if mm["oauthAuthorizationEndpoint"], err = gobEncodeItem(e.OauthAuthorizationEndpoint); err != nil {
+			return nil, err
+		}
+		hasData = true
+	}
+	if e.OauthTokenEndpoint != nil {
+		if mm["oauthTokenEndpoint"], err = gobEncodeItem(e.OauthTokenEndpoint); err != nil {
+			return nil, err
+		}
+		hasData = true
+	}
+	if e.ProvideClientKey != nil {
+		if mm["provideClientKey"], err = gobEncodeItem(e.ProvideClientKey); err != nil {
+			return nil, err
+		}
+		hasData = true
+	}
+	if e.SignClientKey != nil {
+		if mm["signClientKey"], err = gobEncodeItem(e.SignClientKey); err != nil {
+			return nil, err
+		}
+		hasData = true
+	}
+	if e.SharedInbox != nil {
+		if mm["sharedInbox"], err = gobEncodeItem(e.SharedInbox); err != nil {
+			return nil, err
+		}
+		hasData = true
+	}
+	if !hasData {
+		return []byte{}, nil
+	}
+	bb := bytes.Buffer{}
+	g := gob.NewEncoder(&bb)
+	if err := g.Encode(mm); err != nil {
+		return nil, err
+	}
+	return bb.Bytes(), nil
 }
 
 func (e *Endpoints) GobDecode(data []byte) error {
+	if e == nil || len(data) == 0 {
+		return nil
+	}
+	mm, err := gobDecodeObjectAsMap(data)
+	if err != nil {
+		return err
+	}
+	if raw, ok := mm["uploadMedia"]; ok {
+		if e.UploadMedia, err = gobDecodeItem(raw); err != nil {
+			return err
+		}
+	}
+	if raw, ok := mm["oauthAuthorizationEndpoint"]; ok {
+		if e.OauthAuthorizationEndpoint, err = gobDecodeItem(raw); err != nil {
+			return err
+		}
+	}
+	if raw, ok := mm["oauthTokenEndpoint"]; ok {
+		if e.OauthTokenEndpoint, err = gobDecodeItem(raw); err != nil {
+			return err
+		}
+	}
+	if raw, ok := mm["provideClientKey"]; ok {
+		if e.ProvideClientKey, err = gobDecodeItem(raw); err != nil {
+			return err
+		}
+	}
+	if raw, ok := mm["signClientKey"]; ok {
+		if e.SignClientKey, err = gobDecodeItem(raw); err != nil {
+			return err
+		}
+	}
+	if raw, ok := mm["sharedInbox"]; ok {
+		if e.SharedInbox, err = gobDecodeItem(raw); err != nil {
+			return err
+		}
+	}
 	return nil
 }
 
